@@ -1131,3 +1131,38 @@ func ruleChunkLocksStable(e *Engine, r *Report) {
 	}
 	r.floor(rule, n, 1)
 }
+
+// ruleMessageAddressed (C03, C02): a network message reaches the raft core of
+// a replica only if it is addressed to that replica: in the NodeHost's batch
+// handler every hand-over to a node's message queue sits behind the test
+// `node.replicaID == message.To` (a shard restarted under another replica id on
+// the same host must not consume votes and acknowledgements meant for its
+// predecessor - two candidates would count the same vote).
+func ruleMessageAddressed(e *Engine, r *Report) {
+	rule := "GD-message-addressed"
+	fn := r.need("(*dragonboat.messageHandler).HandleMessageBatch")
+	rid := r.needField("dragonboat", "node", "replicaID")
+	to := r.needField("raftpb", "Message", "To")
+	mqT := e.Named("internal/server", "MessageQueue")
+	if fn == nil || rid == nil || to == nil || mqT == nil {
+		return
+	}
+	n := 0
+	for _, g := range e.regionOf(fn, 1) {
+		forEachCall(g, func(s ssa.CallInstruction) {
+			sc := s.Common().StaticCallee()
+			if sc == nil || sc.Signature.Recv() == nil || !isPtrToNamed(sc.Signature.Recv().Type(), mqT) {
+				return
+			}
+			switch sc.Name() {
+			case "Add", "MustAdd", "AddDelayed":
+			default:
+				return
+			}
+			n++
+			r.guard(rule, "MessageQueue."+sc.Name()+" in "+fname(g), s.(ssa.Instruction),
+				reqCmp("the receiving node's replica id equals the message's To", "==", fieldV(rid), fieldV(to)))
+		})
+	}
+	r.floor(rule, n, 3)
+}
